@@ -78,6 +78,11 @@ type c17Answer struct {
 	isErr bool
 	code  int32
 	text  []byte
+	// c17.call / c17.home (c17call.go): the kind of value a peer that does not answer an error sends ("" = pong), the
+	// number of elements of a vector, and the way the answer is delivered ("" = plain)
+	kind  string
+	n     int
+	shape string
 }
 
 type c17PeerReq struct {
@@ -99,6 +104,8 @@ type c17Peer struct {
 	other  int // frames that are neither ping nor msgs_ack, or could not be opened
 	nextID uint64
 	sent   uint32
+
+	lastSent time.Time // when the last answer was written
 }
 
 func newC17Peer(sym string, key []byte, a c17Answer) *c17Peer {
@@ -167,7 +174,7 @@ func (p *c17Peer) serve(c net.Conn) {
 		ping := binary.LittleEndian.Uint64(m.Body[4:])
 		p.mu.Lock()
 		p.reqs = append(p.reqs, c17PeerReq{mid: m.Mid, ping: ping})
-		p.nextID += 4
+		p.nextID += 12 // mid-4 and mid-8 stay free for the messages inside a container (c17Shape)
 		mid := p.nextID
 		seq := p.sent*2 + 1 // content-related
 		p.sent++
@@ -176,13 +183,16 @@ func (p *c17Peer) serve(c net.Conn) {
 		if p.answer.isErr {
 			payload = append(append(c17U32(c17CrcRpcError), c17U32(uint32(p.answer.code))...), c17TLString(p.answer.text)...)
 		} else {
-			payload = append(append(c17U32(c17CrcPong), c17U64(m.Mid)...), c17U64(ping)...)
+			payload = c17ValueBytes(p.answer.kind, p.answer.n, m.Mid, ping)
 		}
-		body := append(append(c17U32(c17CrcRpcResult), c17U64(m.Mid)...), payload...)
+		body, seq := c17Shape(p.answer.shape, p.answer.isErr, m.Mid, payload, mid, seq)
 		out := envSeal(8, p.key, envMsg{Salt: m.Salt, Sid: m.Sid, Mid: mid, Seq: seq, Body: body}, make([]byte, (16-(32+len(body))%16)%16))
 		if _, err := c.Write(append(c17U32(uint32(len(out))), out...)); err != nil {
 			return
 		}
+		p.mu.Lock()
+		p.lastSent = time.Now()
+		p.mu.Unlock()
 	}
 }
 
@@ -258,6 +268,13 @@ type c17ReqSpec struct {
 	when      string     // "", "b", "m", "a": another client configured with dcsOther
 	dcsOther  string
 	wantOther bool
+
+	// c17.call / c17.home: the kind of call and the way its answer is delivered (c17call.go)
+	call  bool
+	home  bool // the home peer itself answers the value (no error at all)
+	kind  string
+	n     int
+	shape string
 }
 
 func c17Req(sp c17ReqSpec) string {
@@ -282,16 +299,20 @@ func c17Req(sp c17ReqSpec) string {
 		}
 	}
 	// conversion first: on a tree where it panics no client and no listener must be left behind
-	if _, e := c17Native(sp.code, sp.text); e == nil {
+	if _, e := c17Native(sp.code, sp.text); e == nil && !sp.home {
 		return "not-ErrResponseCode"
 	}
 	key := envLCG(256, 1717)
-	second := c17Answer{}
+	second := c17Answer{kind: sp.kind, n: sp.n, shape: sp.shape}
 	if sp.second != nil {
 		second = *sp.second
 	}
+	home := c17Answer{isErr: true, code: sp.code, text: sp.text, shape: sp.shape}
+	if sp.home {
+		home = second
+	}
 	peers := map[string]*c17Peer{
-		"H": newC17Peer("H", key, c17Answer{isErr: true, code: sp.code, text: sp.text}),
+		"H": newC17Peer("H", key, home),
 		"A": newC17Peer("A", key, second),
 		"B": newC17Peer("B", key, second),
 	}
@@ -356,18 +377,62 @@ func c17Req(sp c17ReqSpec) string {
 				done <- result{nil, fmt.Errorf("c17-panic-in-MakeRequest")}
 			}
 		}()
-		v, err := m.MakeRequest(&objects.PingParams{PingID: ping})
+		var v interface{}
+		var err error
+		if hint := c17Hint(sp.kind); hint != nil {
+			v, err = m.MakeRequestWithHintToDecoder(&objects.PingParams{PingID: ping}, hint)
+		} else {
+			v, err = m.MakeRequest(&objects.PingParams{PingID: ping})
+		}
 		done <- result{v, err}
 	}()
 	var res result
-	select {
-	case res = <-done:
-	case <-time.After(8 * time.Second):
-		return "outcome=no-return reqs=" + c17Reqs(peers)
+	start := time.Now()
+waiting:
+	for {
+		select {
+		case res = <-done:
+			break waiting
+		case <-time.After(20 * time.Millisecond):
+		}
+		// no-return: 8 s; for c17.call / c17.home also when nothing has happened for c17Quiet after the last answer
+		// a peer has written (loopback: the answer is there within milliseconds)
+		quiet := false
+		if sp.call {
+			var last time.Time
+			for _, p := range peers {
+				p.mu.Lock()
+				if p.lastSent.After(last) {
+					last = p.lastSent
+				}
+				p.mu.Unlock()
+			}
+			quiet = !last.IsZero() && time.Since(last) > c17Quiet
+		}
+		if quiet || time.Since(start) > 8*time.Second {
+			return "outcome=no-return reqs=" + c17Reqs(peers)
+		}
 	}
 	// let a request that is still on its way (there must be none) arrive before counting
 	time.Sleep(time.Millisecond)
 	reqs := c17Reqs(peers)
+	if res.err == nil && sp.call {
+		// which peer sent this value: the one that answers values and received a request (msg_id, ping_id) from
+		// which the value returned is made
+		by := ""
+		for _, k := range []string{"H", "A", "B"} {
+			rs, _ := peers[k].snapshot()
+			for _, r := range rs {
+				if !peers[k].answer.isErr && r.ping == uint64(ping) && c17ValueIs(sp.kind, sp.n, res.v, r.mid, r.ping) {
+					by += k
+				}
+			}
+		}
+		if len(by) != 1 {
+			return fmt.Sprintf("outcome=answered-but:not-the-answer-to-this-request(%s) reqs=%s", c17ShowValue(res.v), reqs)
+		}
+		return fmt.Sprintf("outcome=answered by=%s value=%s reqs=%s", hexD([]byte(by)), c17KindTok(sp.kind, sp.n), reqs)
+	}
 	if res.err == nil {
 		pong, isPong := res.v.(*objects.Pong)
 		if !isPong {
@@ -432,6 +497,8 @@ func c17MigExec(op []string) (string, bool) {
 			second: &c17Answer{isErr: true, code: code32(op[4]), text: parseBytes(op[5])}}), true
 	case len(op) == 6 && op[0] == "c17.two":
 		return c17Req(c17ReqSpec{when: op[1], dcsOther: op[2], wantOther: true, dcs: op[3], code: code32(op[4]), text: parseBytes(op[5])}), true
+	case op[0] == "c17.call" || op[0] == "c17.home":
+		return c17CallExec(op), true
 	}
 	return "", false
 }
@@ -450,6 +517,13 @@ func c17MigJudge(op []string, out string) string {
 	case "c17.req2":
 		dcsTok, codeTok, textTok, second = op[1], op[2], op[3], op[4:6]
 	case "c17.two":
+		dcsTok, codeTok, textTok = op[3], op[4], op[5]
+	case "c17.home":
+		return c17HomeJudge(op, out)
+	case "c17.call":
+		if len(op) != 6 {
+			return ""
+		}
 		dcsTok, codeTok, textTok = op[3], op[4], op[5]
 	}
 	if strings.HasPrefix(out, "setup-failed") || strings.HasPrefix(out, "refused") || out == "bad-op" {
@@ -480,6 +554,9 @@ func c17MigJudge(op []string, out string) string {
 	if name, n, num := specSplit(text); num && name == "PHONE_MIGRATE_X" {
 		if a, ok := configured[n]; ok {
 			want = fmt.Sprintf("outcome=answered by=%s reqs=%s:1,%s:1", hx(a), hx("H"), hx(a))
+			if op[0] == "c17.call" { // the answer of the data centre the request was repeated at, as the kind of value the caller asked for
+				want = fmt.Sprintf("outcome=answered by=%s value=%s reqs=%s:1,%s:1", hx(a), op[1], hx("H"), hx(a))
+			}
 			if second != nil {
 				want = fmt.Sprintf("outcome=returned %s reqs=%s:1,%s:1", structured(second[0], unhexS(second[1])), hx("H"), hx(a))
 			}
@@ -502,6 +579,9 @@ func c17MigJudge(op []string, out string) string {
 		}
 	}
 	why := "request path: expected " + want
+	if op[0] == "c17.call" {
+		why = fmt.Sprintf("request path, a call whose answer is %s delivered %s: expected %s", c17KindWords(op[1]), c17ShapeWords(op[2]), want)
+	}
 	if op[0] == "c17.two" {
 		// is the observed outcome what a client with the OTHER client's table would have done?
 		if dcs, ok := c17ParseDcs(op[2]); ok {
